@@ -1005,6 +1005,10 @@ impl Rasn {
                 if matches!(**value, ASN1Value::LinkedArrayLikeValue(_)) && !wrappers.is_empty() {
                     inner = quote!(#inner.into());
                 }
+                // an OCTET STRING type of fixed size is a `FixedOctetString`
+                if matches!(**value, ASN1Value::OctetString(_)) && !wrappers.is_empty() {
+                    inner = quote!(#inner.try_into().unwrap());
+                }
                 Ok(nester(self, inner, wrappers))
             }
             ASN1Value::LinkedIntValue {
